@@ -37,6 +37,7 @@ type c09X struct {
 	SrvSteps []SaslStep
 	AuthOp   int
 	NoopOp   int
+	CliFault int // client half: the exchange is broken off: 1 Server.Close, 2 failing reply writes, 3 a reply write blocked for ever
 }
 
 func b64(b []byte) string { return base64.StdEncoding.EncodeToString(b) }
@@ -293,6 +294,20 @@ func genC09Client(t *Tape, sc *Scenario, x *c09X) *Scenario {
 	}
 	cs := ConnScript{Lat: drawLat(t), LatBack: drawLat(t), Client: cl}
 	cs.defaults()
+	if t.Chance(1, 8) {
+		// fault stratum: the exchange is broken off somewhere; Auth may return anything but
+		// a success the server's mechanism did not reach
+		x.CliFault = 1 + t.Intn(3)
+		switch x.CliFault {
+		case 1:
+			sc.Admin = []AdminStep{{At: Dur(t.Intn(60)) * 100 * time.Microsecond, Kind: aClose}}
+		case 2:
+			cs.SrvFaults.FailWriteAt = 1 + t.Intn(8)
+		default:
+			cs.SrvFaults.BlockWriteAt = 1 + t.Intn(8)
+			sc.Srv.WriteTO = 0
+		}
+	}
 	sc.Conns = []ConnScript{cs}
 	sc.Strata = []string{fmt.Sprintf("client/tls%d", x.TLSMode)}
 	return sc
@@ -479,6 +494,26 @@ func checkC09Client(sc *Scenario, h *History, x *c09X) []Violation {
 			out = append(out, Violation{Rule: rule, Detail: fmt.Sprintf(format, a...), Witness: wit})
 		}
 	}
+	if x.CliFault > 0 {
+		// Only this is judged: Auth reports success only if the server's mechanism finished.
+		if ch.Client == nil || len(ch.Client.Results) <= x.AuthOp {
+			return out
+		}
+		res := ch.Client.Results[x.AuthOp]
+		done := false
+		for _, e := range h.Events {
+			if e.Kind == "SaslNext" && e.Opts == "done" {
+				done = true
+			}
+		}
+		if res.Begin != 0 && !res.Skipped && res.Err == "" && !done {
+			v("C09.client-false-success", "the exchange was broken off (fault %d) before the server's mechanism finished, but Auth returned nil", x.CliFault)
+		}
+		if res.Begin != 0 && res.End-res.Begin > int64(18*time.Minute) {
+			v("C09.client-hang", "Auth took %v of fake time over a broken exchange", time.Duration(res.End-res.Begin))
+		}
+		return out
+	}
 	if ch.Client == nil || ch.Client.NewErr != "" || len(ch.Client.Results) <= x.NoopOp {
 		v("C09.client-setup", "client could not be set up: %+v", ch.Client)
 		return out
@@ -578,6 +613,9 @@ func classifyC09(sc *Scenario, h *History, st *Stats) string {
 	x := sc.X.(*c09X)
 	if x.Half == 1 {
 		st.Probes["client_half"]++
+		if x.CliFault > 0 {
+			st.Faults["client_auth_exchange_broken_off"]++
+		}
 		if x.CliPlan.IR != nil && len(x.CliPlan.IR) == 0 {
 			st.Probes["empty_initial_response"]++
 		}
@@ -639,7 +677,7 @@ func init() {
 		Real:        []string{"smtp.Server.Serve/handleConn", "smtp.Conn handleAuth, handleGreet (capabilities), handleStartTLS", "smtp.Client.Auth, NewClientStartTLS", "crypto/tls (client and server)", "net/textproto"},
 		Stub:        []string{"net.Listener (SimListener)", "net.Conn (SimConn)", "Backend/AuthSession (SimBackend)", "sasl.Server and sasl.Client (scripted, recording)", "clock (synctest)", "SMTP client of the server half (raw driver)"},
 		Assumptions: []string{"a nil (as opposed to empty) response from a client mechanism's Next is an unspecified contract and is not generated", "the reply code of a failed/malformed/cancelled exchange is not judged, only that it is not positive and the connection is back in command mode"},
-		Required:    []string{"attempt_235", "attempt_badb64", "attempt_cancel", "attempt_fail", "attempt_unknown-mech", "attempt_not_permitted", "attempt_after_success", "auth_after_failed_starttls_handshake", "client_half", "client_mechanism_error", "empty_initial_response", "tls_handshake_completed", "client_answers_a_challenge_later_than_ReadTimeout", "client_answers_a_challenge_with_an_over-long_line"},
+		Required:    []string{"attempt_235", "attempt_badb64", "attempt_cancel", "attempt_fail", "attempt_unknown-mech", "attempt_not_permitted", "attempt_after_success", "auth_after_failed_starttls_handshake", "client_half", "client_mechanism_error", "empty_initial_response", "tls_handshake_completed", "client_answers_a_challenge_later_than_ReadTimeout", "client_answers_a_challenge_with_an_over-long_line", "client_auth_exchange_broken_off"},
 		QuickRuns:   40000, ThoroughRuns: 1000000,
 	})
 }
